@@ -203,8 +203,83 @@ fn neighbours() -> Vec<String> {
     out
 }
 
+/// Lean judgement for the big enumerations: parses iff the ASCII-lower-cased form is a name.
+fn o_lean(s: &String, st: &mut Stats) -> Result<(), String> {
+    match PackageType::from_str(s) {
+        Ok(v) => {
+            if !v.name().eq_ignore_ascii_case(s) {
+                return Err(format!("{s:?} is taken for the package type {:?}", v.name()));
+            }
+            st.class("parses");
+        },
+        Err(_) => {
+            if KNOWN_TYPES.iter().any(|n| n.eq_ignore_ascii_case(s)) {
+                return Err(format!("{s:?} is a letter-case variant of a name but does not parse"));
+            }
+        },
+    }
+    Ok(())
+}
+
+/// name[..k] + any scalar (+ the rest of the name from k or k+1 on): every substitution and insertion, and
+/// every truncated name followed by one arbitrary character
+fn scalar_edit(range: u64, idx: u64) -> Option<String> {
+    let scalar = (idx % range) as u32;
+    let mut rest = idx / range;
+    let c = char::from_u32(scalar)?;
+    let form = rest % 3;
+    rest /= 3;
+    let pos = (rest % 7) as usize;
+    let name = KNOWN_TYPES[((rest / 7) % 7) as usize];
+    if pos > name.len() {
+        return None;
+    }
+    Some(match form {
+        0 => format!("{}{c}{}", &name[..pos], &name[pos..]),
+        1 => format!("{}{c}{}", &name[..pos], name.get(pos + 1..).unwrap_or("")),
+        _ => format!("{}{c}", &name[..pos]),
+    })
+}
+
+const ALNUM36: &[u8] = b"abcdefghijklmnopqrstuvwxyz0123456789";
+
+fn alnum_string(mut idx: u64) -> Option<String> {
+    let mut len = 1u32;
+    loop {
+        let n = 36u64.pow(len);
+        if idx < n {
+            break;
+        }
+        idx -= n;
+        len += 1;
+    }
+    let mut s = String::with_capacity(len as usize);
+    for _ in 0..len {
+        s.push(ALNUM36[(idx % 36) as usize] as char);
+        idx /= 36;
+    }
+    Some(s)
+}
+
 pub fn sections() -> Vec<Box<dyn Section>> {
     vec![
+        Box::new(Enumerated {
+            name: "every-scalar-at-every-position-of-every-name".into(),
+            // quick: the scalar values below U+30000 (all planes with letters); thorough: every scalar value
+            total: Box::new(|t: Tier| t.pick(0x30000u64, 0x110000u64) * 3 * 7 * 7),
+            make: Box::new(|t: Tier, i| scalar_edit(t.pick(0x30000u64, 0x110000u64), i)),
+            oracle: o_lean,
+            required: vec!["parses"],
+            complete: true,
+        }),
+        Box::new(Enumerated {
+            name: "all-short-lower-case-alphanumeric-strings".into(),
+            total: Box::new(|t: Tier| (1..=t.pick(5u32, 6u32)).map(|l| 36u64.pow(l)).sum()),
+            make: Box::new(|_, i| alnum_string(i)),
+            oracle: o_lean,
+            required: vec!["parses"],
+            complete: true,
+        }),
         Box::new(Listed {
             name: "seven-variants-all-case-variants".into(),
             cases: Box::new(|_| KNOWN_TYPES.iter().map(|s| s.to_string()).collect()),
